@@ -5,8 +5,9 @@ Model of `rlib/dsu/src/lib.rs` (`DSU::{new, reset, par, un, check, size}`, deriv
 State: the two vectors `p` (parent pointers) and `sz` (sizes, meaningful at roots) as `Array Nat`.
 Every Rust slice index is a *checked* access here: out of range = `panic:index`, like the code.
 `par` is the recursive find with full path compression; the recursion depth is the model's fuel
-(`fuel = 0` = "stack exhausted", reported as `fuel`); `C05.par_spec` proves that `fuel ≥ n` is
-always enough — in fact the depth is at most `log2 n` (`C05.depth_le_log`).
+(`fuel = 0` = "stack exhausted", reported as `fuel`); every find of a history runs with only
+`fuelFor s = log2 n + 1` frames, and `C05.par_spec` proves that this is always enough (`fuel > log2 n`),
+so a forest deeper than `log2 n` would be a `fuel` error of the executed model as well.
 `usize` overflow of `sz[v] += sz[u]` is not modelled (sizes are bounded by `n`; residue of §6 C05).
 
 A history (`Op` list) runs on a pair of structures (`Sys`): the current one and a saved clone, so
@@ -103,22 +104,25 @@ structure Sys where
   cur : S
   saved : S
 
-/-- one operation; every find gets fuel = the current number of elements. -/
+/-- the stack budget of every find in a history: `log2 n + 1` frames -/
+def fuelFor (s : S) : Nat := Nat.log2 s.p.size + 1
+
+/-- one operation; every find gets only `log2 n + 1` frames. -/
 def step : Sys → Op → Except Panic (Sys × Res)
   | ⟨cur, saved⟩, .un u v =>
-    match un cur.p.size cur u v with
+    match un (fuelFor cur) cur u v with
     | .error e => .error e
     | .ok (s, b) => .ok (⟨s, saved⟩, .bool b)
   | ⟨cur, saved⟩, .par v =>
-    match par cur.p.size cur v with
+    match par (fuelFor cur) cur v with
     | .error e => .error e
     | .ok (s, r) => .ok (⟨s, saved⟩, .nat r)
   | ⟨cur, saved⟩, .check u v =>
-    match check cur.p.size cur u v with
+    match check (fuelFor cur) cur u v with
     | .error e => .error e
     | .ok (s, b) => .ok (⟨s, saved⟩, .bool b)
   | ⟨cur, saved⟩, .size v =>
-    match size cur.p.size cur v with
+    match size (fuelFor cur) cur v with
     | .error e => .error e
     | .ok (s, k) => .ok (⟨s, saved⟩, .nat k)
   | ⟨cur, saved⟩, .reset n => .ok (⟨reset cur n, saved⟩, .unit)
